@@ -286,29 +286,47 @@ def ref_terms(self, fr, M, leaf, leaves):
         elif isinstance(v, AdtV) and v.fields is not None:
             for f in v.fields:
                 walk(f, depth + 1)
+        elif isinstance(v, UnionV) and v.val is not None:
+            walk(v.val, depth + 1)
         elif isinstance(v, RefV) and isinstance(v.lv, LVObj) and depth < 2:
             o = M.heap.get(v.lv.obj)
+            if o is not None and v.lv.path:
+                o = self.nav(o, v.lv.path)     # a reference into the middle of an object: what it points at
             if o is not None:
                 walk(o, depth + 1)
+    # slice lengths of the current frame first: loop bounds are almost always one of them
+    if leaf.kind == 'int':
+        lens = []
+        for l, v in cur.items():
+            if isinstance(v, SliceV):
+                add(v.n)
+                e = M.store.nf(v.n)
+                if e not in lens:
+                    lens.append(e)
+        # "how much of a fits beyond b" (haystack.len() - needle.len()): the bound of a substring scan
+        for a in lens[:3]:
+            for b in lens[:3]:
+                if a is not b:
+                    add(a - b)
     for l, v in cur.items():
         walk(v)
-        if len(refs) > 14:
+        if len(refs) > 24:
             break
     # values of the caller frames and heap objects (e.g. the start/end pointers a result must lie between)
-    if len(refs) <= 14:
+    if len(refs) <= 24:
         for fid in sorted(M.frames, reverse=True):
             if fid == fr.fid:
                 continue
             for l, v in M.frames[fid].items():
                 walk(v)
-            if len(refs) > 18:
+            if len(refs) > 28:
                 break
-    if len(refs) <= 18:
+    if len(refs) <= 28:
         for o, v in M.heap.items():
             walk(v, 1)
-            if len(refs) > 20:
+            if len(refs) > 30:
                 break
-    return refs[:22]
+    return refs[:32]
 
 
 def tightest_lb(store, e, span=1 << 13):
@@ -429,8 +447,14 @@ def make_candidates(self, fr, M, leaves, states, step_consts, houdini):
                 sm = (xa + xb) - (ea + eb)
                 cands.append(('le', sm))
                 cands.append(('le', -sm))
-    # small loops over integer leaves only: three-variable bounds  a + b <= c + k
+    # disequalities between integer leaves (e.g. two indices kept distinct by construction)
     ints = [l for l in leaves if l.kind == 'int']
+    if houdini and len(ints) <= 8:
+        for i, a in enumerate(ints):
+            for b in ints[i + 1:]:
+                if all(stores[k].entails_ne(a.entry[k] - b.entry[k]) for k in range(n)):
+                    cands.append(('ne', V(a.x) - V(b.x)))
+    # small loops over integer leaves only: three-variable bounds  a + b <= c + k
     if houdini and 3 <= len(ints) <= TRIPLE_MAX:
         for i, a in enumerate(ints):
             for b in ints[i + 1:]:
@@ -445,6 +469,8 @@ def assume_cands(self, st, cands):
     for c in cands:
         if c[0] == 'le':
             st.store.add_le(c[1])
+        elif c[0] == 'ne':
+            st.store.add_ne(c[1])
         elif c[0] == 'div':
             leaf, m = c[1], c[2]
             k = fresh('k')
@@ -465,6 +491,8 @@ def cand_holds(self, c, B, leaves):
         sub[l.x] = e
     if c[0] == 'le':
         return B.store.entails_le(c[1].subst(sub))
+    if c[0] == 'ne':
+        return B.store.entails_ne(c[1].subst(sub))
     if c[0] == 'div':
         leaf, m = c[1], c[2]
         return B.store.divisible(V(self.regions[leaf.region].A) + sub[leaf.x], m)
@@ -505,7 +533,7 @@ def merge_states(self, fr, b, states, force=frozenset(), houdini=False, step_con
         assume_cands(self, M, cands)
     if self.opts.get('trace_loops'):
         import sys as _s
-        print(f"[merge {fr.inst.path} bb{b}] {len(states)} states, leaves {[(l.loc, l.path, l.part, l.x) for l in leaves]}, cands {[c[1] if c[0]=='le' else (c[0], c[1].x, c[2] if c[0]=='div' else c[2].x) for c in cands]}", file=_s.stderr)
+        print(f"[merge {fr.inst.path} bb{b}] {len(states)} states, leaves {[(l.loc, l.path, l.part, l.x) for l in leaves]}, cands {[c[1] if c[0] in ('le', 'ne') else (c[0], c[1].x, c[2] if c[0]=='div' else c[2].x) for c in cands]}", file=_s.stderr)
     return M, leaves, cands
 
 
@@ -598,7 +626,13 @@ def exec_loop(self, fr, h, entry_states):
             import sys as _s
             print(f"[loop {inst.path} bb{h}] round {rounds}: {len(leaves)} leaves {[ (l.loc, l.path, l.part) for l in leaves]}, {len(cands)} cands, {len(res['back'])} back states, {len(failed)} dropped", file=_s.stderr)
             for c in failed:
-                print('     drop', c[0], c[1] if c[0] == 'le' else (c[1].x, c[2] if c[0] == 'div' else c[2].x), file=_s.stderr)
+                print('     drop', c[0], c[1] if c[0] in ('le', 'ne') else (c[1].x, c[2] if c[0] == 'div' else c[2].x), file=_s.stderr)
+                if self.opts.get('trace_loops') == '2':
+                    for bi, B in enumerate(res['back']):
+                        if not cand_holds(self, c, B, leaves):
+                            vals = {l.x: str(B.store.nf(leaf_value_in(B, l))) if leaf_value_in(B, l) is not None else None for l in leaves}
+                            print(f'        back state {bi}: leaves {vals} trail {B.ghost.get("trail")}', file=_s.stderr)
+                            break
         if failed:
             fs = set(id(c) for c in failed)
             cands = [c for c in cands if id(c) not in fs]
@@ -708,7 +742,7 @@ def cand_syms(cands, leaves):
     garbage collection inside the loop body, or the invariant cannot be re-established"""
     out = {l.x for l in leaves}
     for c in cands:
-        if c[0] == 'le':
+        if c[0] in ('le', 'ne'):
             out.update(c[1].syms())
         elif c[0] == 'cnt':
             out.update(c[4].syms())
